@@ -62,7 +62,7 @@ class State:
 TOTAL_CALLS = {
     "len", "isinstance", "type", "repr", "id", "bool", "callable", "hasattr", "tuple", "list", "dict",
     "bytes.decode:latin-1", "cast", "getattr3", "object", "enumerate", "iter", "super", "min", "max", "abs",
-    "hex", "oct", "bin", "ord", "sorted", "reversed", "zip", "range", "memoryview", "bytearray", "divmod", "round", "sum", "any", "all",
+    "hex", "oct", "bin", "ord", "slice", "sorted", "reversed", "zip", "range", "memoryview", "bytearray", "divmod", "round", "sum", "any", "all",
 }
 TOTAL_METHODS = {
     "append", "items", "values", "keys", "join", "rstrip", "lstrip", "strip", "startswith", "endswith", "is_set",
@@ -103,6 +103,7 @@ class Effects:
 
     # ------------------------------------------------------------ summaries
     def escapes(self, fi: FuncInfo, init_facts: frozenset = frozenset()) -> list[Esc]:
+        fi = self.repo.flat(fi)  # newly extracted helpers are analysed in the context of their caller
         q = fi.qualname if not init_facts else fi.qualname + "|" + ",".join(sorted(init_facts))
         if q in self.summaries:
             return self.summaries[q]
@@ -140,6 +141,25 @@ class Effects:
             tgts = s.targets if isinstance(s, ast.Assign) else [s.target]
             for t in tgts:
                 out.extend(self.store(t, fi, st, val))
+            # (a, b) = <struct unpack>: element types and ranges follow from the format
+            if len(tgts) == 1 and isinstance(tgts[0], (ast.Tuple, ast.List)) and isinstance(val, ast.Call):
+                fmt = None
+                if unparse(val.func) == "struct.unpack" and val.args:
+                    fmt = self.repo.fold_in(val.args[0], fi)
+                else:
+                    sb = self.repo.struct_binding(val.func, fi)
+                    if sb is not None and sb[1] == "unpack":
+                        fmt = sb[0]
+                if isinstance(fmt, str):
+                    codes = [ch for ch in fmt.lstrip("!<>=@")]
+                    for x, code in zip(tgts[0].elts, codes):
+                        if isinstance(x, ast.Name):
+                            if code in INT_CODES:
+                                st.facts.add(f"type({x.id}) is int")
+                                st.facts.add(f"{x.id}>={INT_CODES[code][0]}")
+                                st.facts.add(f"{x.id}<={INT_CODES[code][1]}")
+                            elif code in "df":
+                                st.facts.add(f"type({x.id}) is float")
             # value-origin facts
             if isinstance(s, (ast.Assign, ast.AnnAssign)) and len(tgts) == 1 and isinstance(tgts[0], ast.Name) and val is not None:
                 self._kill_name(st, tgts[0].id)
@@ -235,7 +255,8 @@ class Effects:
             for t in s.targets:
                 if isinstance(t, ast.Subscript):
                     out.extend(self.expr(t.value, fi, st))
-                    if not isinstance(t.slice, ast.Slice):
+                    sl_alias = self.repo.local_alias(t.slice.id, fi) if isinstance(t.slice, ast.Name) else None
+                    if not isinstance(t.slice, ast.Slice) and not (isinstance(sl_alias, ast.Call) and unparse(sl_alias.func) == "slice"):
                         out.extend(self.subscript(t, fi, st, store=True))
                 if isinstance(t, ast.Name):
                     self._kill_name(st, t.id)
@@ -313,6 +334,9 @@ class Effects:
             return out
         if isinstance(e, ast.Subscript):
             out.extend(self.expr(e.value, fi, st))
+            sl_alias = self.repo.local_alias(e.slice.id, fi) if isinstance(e.slice, ast.Name) else None
+            if isinstance(sl_alias, ast.Call) and unparse(sl_alias.func) == "slice":
+                return out  # slicing never raises on list/bytes
             if isinstance(e.slice, ast.Slice):
                 for x in (e.slice.lower, e.slice.upper, e.slice.step):
                     out.extend(self.expr(x, fi, st))
@@ -326,6 +350,10 @@ class Effects:
             if isinstance(e.op, ast.Mult):
                 # sequence repetition sized by data: allocation site
                 for seq, n in ((e.left, e.right), (e.right, e.left)):
+                    if isinstance(seq, ast.Name):
+                        al = self.repo.local_alias(seq.id, fi)
+                        if isinstance(al, (ast.List, ast.Tuple)):
+                            seq = al
                     if isinstance(seq, (ast.List, ast.Tuple)) or (isinstance(seq, ast.Constant) and isinstance(seq.value, (bytes, str))):
                         bounded = self._bounded(n, fi, st)
                         self.alloc_sites.append((fi, e, bounded))
@@ -415,6 +443,13 @@ class Effects:
                     return len(struct.unpack(fmt, b"\0" * struct.calcsize(fmt))) == n
                 except struct.error:
                     return False
+        if isinstance(val, ast.Call):
+            sb = self.repo.struct_binding(val.func, fi)
+            if sb is not None and sb[1] == "unpack":
+                try:
+                    return len(struct.unpack(sb[0], b"\0" * struct.calcsize(sb[0]))) == n
+                except struct.error:
+                    return False
         if isinstance(val, ast.Name) and val.id == "strconfig":
             return n == 2  # annotated tuple[bool, bool] (A5)
         if isinstance(val, ast.Attribute) and val.attr in ("task",):
@@ -473,7 +508,11 @@ class Effects:
         for s in body[:-1]:
             if isinstance(s, ast.If) and s.body and isinstance(s.body[-1], ast.Raise) and not s.orelse:
                 t = s.test
-                if isinstance(t, ast.Compare) and len(t.ops) == 1 and unparse(t.left) == f"len({x})" \
+                left = t.left if isinstance(t, ast.Compare) else None
+                if isinstance(left, ast.Name):
+                    al = self.repo.local_alias(left.id, fi)
+                    left = al if al is not None else left
+                if isinstance(t, ast.Compare) and len(t.ops) == 1 and left is not None and unparse(left) == f"len({x})" \
                         and unparse(t.comparators[0]) == n and isinstance(t.ops[0], ast.NotEq):
                     ok = True
             # the checked variable must not be re-assigned after the check
@@ -485,6 +524,10 @@ class Effects:
     # ------------------------------------------------------------- subscripts
     def subscript(self, e: ast.Subscript, fi: FuncInfo, st: State, store: bool) -> list[Esc]:
         base = unparse(e.value)
+        if isinstance(e.value, ast.Name):
+            al = self.repo.local_alias(e.value.id, fi)
+            if isinstance(al, ast.Attribute) and unparse(al) == "self.stack":
+                base = "self.stack"
         key = unparse(e.slice)
         site = {"site": f"{fi.module.rel}:{e.lineno} {fi.short}", "construct": norm(e), "kind": "subscript"}
         if base == "self.stack" and not store:
@@ -497,7 +540,7 @@ class Effects:
             site["discharged"] = None
             self.primitive_sites.append(site)
             return [self.esc("IndexError", True, fi, e, "subscript")]
-        if isinstance(e.value, ast.Call) and unparse(e.value.func) == "struct.unpack":
+        if isinstance(e.value, ast.Call) and (unparse(e.value.func) == "struct.unpack" or (self.repo.struct_binding(e.value.func, fi) or ("", ""))[1] == "unpack"):
             return []  # non-empty tuple by format
         if isinstance(e.value, ast.Attribute) and unparse(e.value) in ("self.num2func", "self._dispatch", "self._types"):
             if store:
@@ -536,10 +579,15 @@ class Effects:
                 if isinstance(n, ast.Assign) and any(isinstance(t, ast.Name) and t.id == v.id for t in n.targets) \
                         and isinstance(n.value, ast.Dict):
                     return True
-        if isinstance(v, ast.Attribute) and unparse(v.value) == "self":
+        if isinstance(v, ast.Attribute) and unparse(v.value) in ("self", "cls", "self.__class__"):
             ci = self.repo.class_of_func(fi)
             if ci is not None:
                 for c in self.repo.mro(ci):
+                    for st in c.node.body:
+                        tgt = st.targets[0] if isinstance(st, ast.Assign) else (st.target if isinstance(st, ast.AnnAssign) else None)
+                        if isinstance(tgt, ast.Name) and tgt.id == v.attr and (
+                                (isinstance(st, ast.AnnAssign) and unparse(st.annotation).startswith("dict")) or isinstance(getattr(st, "value", None), ast.Dict)):
+                            return True
                     for m in c.methods.values():
                         for n in self.repo.own_nodes(m):
                             if isinstance(n, ast.AnnAssign) and unparse(n.target) == unparse(v) and unparse(n.annotation).startswith(("dict", "weakref.WeakValueDictionary")):
@@ -550,10 +598,17 @@ class Effects:
     def call(self, c: ast.Call, fi: FuncInfo, st: State) -> list[Esc]:
         out: list[Esc] = []
         fn = c.func
+        if isinstance(fn, ast.Attribute) and isinstance(fn.value, ast.Name) and fn.value.id not in ("self", "cls"):
+            al = self.repo.local_alias(fn.value.id, fi)
+            if isinstance(al, ast.Attribute) and unparse(al).startswith(("self.", "cls.")):
+                fn = ast.copy_location(ast.Attribute(value=al, attr=fn.attr, ctx=ast.Load()), fn)
+                c = ast.copy_location(ast.Call(func=fn, args=c.args, keywords=c.keywords), c)
         fname = unparse(fn)
         # receiver and arguments first
         if isinstance(fn, ast.Attribute):
             out.extend(self.expr(fn.value, fi, st))
+        elif isinstance(fn, ast.Call):
+            out.extend(self.expr(fn, fi, st))
         for a in c.args:
             out.extend(self.expr(a, fi, st))
         for k in c.keywords:
@@ -666,6 +721,8 @@ class Effects:
             return out
         if isinstance(fn, ast.Attribute) and last in TOTAL_METHODS:
             return out
+        if isinstance(fn, ast.Attribute) and last == "get" and self._annotated_mapping(fn.value, fi):
+            return out  # dict.get is total
         if isinstance(fn, ast.Attribute) and last == "read" and unparse(fn.value).endswith("stream"):
             return out  # A4
         if isinstance(fn, ast.Attribute) and last == "pop" and c.args:
@@ -695,6 +752,35 @@ class Effects:
                     out.append(self.esc("AttributeError", True, fi, c, "none-receiver"))
                     if null is True:
                         return out
+        # -- dispatch through a class-level dict keyed by type(x): each target is analysed knowing type(formal) is <key>
+        if isinstance(fn, ast.Name):
+            al = self.repo.local_alias(fn.id, fi)
+            tbl = keyexpr = None
+            if isinstance(al, ast.Call) and isinstance(al.func, ast.Attribute) and al.func.attr == "get" and al.args:
+                tbl, keyexpr = al.func.value, al.args[0]
+            elif isinstance(al, ast.Subscript):
+                tbl, keyexpr = al.value, al.slice
+            if isinstance(tbl, ast.Attribute) and unparse(tbl.value) in ("self", "cls") and isinstance(keyexpr, ast.Call) and unparse(keyexpr.func) == "type" and keyexpr.args:
+                subject = unparse(keyexpr.args[0])
+                ci = self.repo.class_of_func(fi)
+                pairs = []
+                for cc in (self.repo.mro(ci) if ci else []):
+                    for st_ in cc.node.body:
+                        tgt = st_.targets[0] if isinstance(st_, ast.Assign) else (st_.target if isinstance(st_, ast.AnnAssign) else None)
+                        if isinstance(tgt, ast.Name) and tgt.id == tbl.attr and isinstance(getattr(st_, "value", None), ast.Dict):
+                            for k, v in zip(st_.value.keys, st_.value.values):
+                                if isinstance(k, ast.Name) and isinstance(v, ast.Name) and v.id in cc.methods:
+                                    pairs.append((k.id, cc.methods[v.id]))
+                if pairs:
+                    st.stackmin = 0
+                    for key, m in pairs:
+                        formals = [a.arg for a in m.node.args.args]
+                        facts = set(self._arg_facts(c, m, fi, st)) if False else set()
+                        for i, a in enumerate(c.args):
+                            if unparse(a) == subject and i < len(formals):
+                                facts.add(f"type({formals[i]}) is {key}")
+                        out.extend(x.via(m.short) for x in self.escapes(m, frozenset(facts)))
+                    return out
         # -- resolved repo callee
         targets = self.repo.resolve_call(c, fi)
         if targets:
@@ -828,6 +914,10 @@ class Effects:
         if isinstance(t, ast.Compare) and len(t.ops) == 1 and isinstance(t.comparators[0], ast.Constant) \
                 and t.comparators[0].value is None:
             l = unparse(t.left)
+            if isinstance(t.left, ast.Name) and l not in self.field_null:
+                al = self.repo.local_alias(l, fi)
+                if isinstance(al, ast.Attribute) and unparse(al) in self.field_null:
+                    l = unparse(al)
             null = self.field_null.get(l)
             if null is None and f"{l} is not None" in st.facts:
                 null = False
@@ -840,6 +930,17 @@ class Effects:
             l = unparse(t)
             if self.field_null.get(l) is True:
                 return False
+        if isinstance(t, ast.Compare) and all(isinstance(o, (ast.LtE, ast.Lt)) for o in t.ops):
+            # lo <= x <= hi decided from known bounds of x
+            parts = [t.left] + list(t.comparators)
+            ok = True
+            for (a, op, b) in zip(parts, t.ops, parts[1:]):
+                alo, ahi = self.bounds(a, fi, st)
+                blo, bhi = self.bounds(b, fi, st)
+                if ahi is None or blo is None or not (ahi <= blo if isinstance(op, ast.LtE) else ahi < blo):
+                    ok = False
+            if ok:
+                return True
         return None
 
     def assume(self, t: ast.AST, val: bool, fi: FuncInfo, st: State) -> None:
@@ -878,6 +979,10 @@ class Effects:
             # len(self.stack) comparisons
             rv = self.repo.fold_in(r, fi)
             lv = self.repo.fold_in(l, fi)
+            if ls.startswith("len(") and isinstance(l, ast.Call) and l.args and isinstance(l.args[0], ast.Name):
+                al = self.repo.local_alias(l.args[0].id, fi)
+                if isinstance(al, ast.Attribute) and unparse(al) == "self.stack":
+                    ls = "len(self.stack)"
             if ls == "len(self.stack)" and isinstance(rv, int):
                 if isinstance(op, ast.Lt) and not val:
                     st.stackmin = max(st.stackmin, rv)
@@ -889,6 +994,10 @@ class Effects:
                 if isinstance(op, ast.Gt) and val:
                     st.stackmin = max(st.stackmin, rv + 1)
                 return
+            if rs.startswith("len(") and (isinstance(op, ast.Lt) and val or isinstance(op, ast.GtE) and not val):
+                st.facts.add(f"{ls}<{rs}")
+                if f"{ls}>=0" in st.facts:
+                    st.facts.add(f"inrange({ls},{rs[4:-1]})")
             if ls.startswith("len(") and (isinstance(op, ast.NotEq) and not val or isinstance(op, ast.Eq) and val):
                 st.facts.add(f"{ls}=={repr(rv) if rv is not UNKNOWN else rs}")
                 return
@@ -900,6 +1009,10 @@ class Effects:
                     st.facts.add(f"{ls}>={rv}" if val else f"{ls}<={rv - 1}")
                 elif isinstance(op, ast.Lt):
                     st.facts.add(f"{ls}<={rv - 1}" if val else f"{ls}>={rv}")
+                    if not val and rv == 0:
+                        for f_ in list(st.facts):
+                            if f_.startswith(f"{ls}<len("):
+                                st.facts.add(f"inrange({ls},{f_[len(ls) + 5:-1]})")
                 elif isinstance(op, ast.LtE):
                     st.facts.add(f"{ls}<={rv}" if val else f"{ls}>={rv + 1}")
                 if isinstance(op, (ast.Lt, ast.LtE)) and val or isinstance(op, (ast.Gt, ast.GtE)) and not val:
@@ -922,6 +1035,11 @@ class Effects:
         if isinstance(t, ast.Call) and isinstance(t.func, ast.Name) and t.func.id == "isinstance" and val and len(t.args) == 2:
             st.facts.add(f"isinstance({unparse(t.args[0])},{unparse(t.args[1])})")
             return
+        if isinstance(t, ast.Name):
+            al = self.repo.local_alias(t.id, fi)
+            if isinstance(al, (ast.Compare, ast.BoolOp, ast.UnaryOp)) and not any(isinstance(x, ast.Call) and not (isinstance(x.func, ast.Name) and x.func.id in ("len", "type", "isinstance")) for x in ast.walk(al)):
+                self.assume(al, val, fi, st)
+                return
         if isinstance(t, (ast.Name, ast.Attribute)):
             if val:
                 st.facts.add(f"{unparse(t)} is not None")
@@ -966,6 +1084,14 @@ def init_field_nullness(repo: Repo, ctor: FuncInfo, call: ast.Call, caller: Func
     def null(e: ast.AST) -> bool | None:
         if isinstance(e, ast.Constant):
             return e.value is None
+        if isinstance(e, ast.IfExp):
+            tv = truth(e.test)
+            if tv is True:
+                return null(e.body)
+            if tv is False:
+                return null(e.orelse)
+            a, b = null(e.body), null(e.orelse)
+            return a if a == b else None
         if isinstance(e, ast.Name):
             return env.get(e.id)
         if isinstance(e, ast.Attribute):
@@ -993,8 +1119,19 @@ def init_field_nullness(repo: Repo, ctor: FuncInfo, call: ast.Call, caller: Func
             return False if n is True else None
         return None
 
+    broke = [False]
+
     def run(stmts: list[ast.stmt]) -> None:
         for s in stmts:
+            if broke[0]:
+                return
+            if isinstance(s, ast.While) and isinstance(s.test, ast.Constant) and s.test.value is True:
+                run(s.body)
+                broke[0] = False
+                continue
+            if isinstance(s, ast.Break):
+                broke[0] = True
+                return
             if isinstance(s, ast.If):
                 v = truth(s.test)
                 if v is True:
@@ -1025,9 +1162,12 @@ def init_field_nullness(repo: Repo, ctor: FuncInfo, call: ast.Call, caller: Func
                         else:
                             fields[unparse(t)] = n
                     elif isinstance(t, ast.Tuple):
-                        for x in t.elts:
+                        vals = s.value.elts if isinstance(s.value, ast.Tuple) and len(s.value.elts) == len(t.elts) else [None] * len(t.elts)
+                        for x, v in zip(t.elts, vals):
                             if isinstance(x, ast.Name):
-                                env[x.id] = None
+                                env[x.id] = null(v) if v is not None else None
+                            elif isinstance(x, ast.Attribute) and unparse(x.value) == "self" and v is not None and null(v) is not None:
+                                fields[unparse(x)] = null(v)
 
     run(ctor.node.body)
     return fields
